@@ -12,6 +12,13 @@ import (
 	"verifmc/spec"
 )
 
+// c03PortAlphabet: absent, 0, and application ports including the neighbours of 224 (the port the
+// specification reserves for MAC-layer testing: "FPort > 0" includes it).
+var c03PortAlphabet = []int{-1, 0, 1, 223, 224, 225, 255}
+
+// callerPayload is a Payload implementation of the caller (the library's own behaviour, inherited).
+type callerPayload struct{ lorawan.DataPayload }
+
 func init() { register("C03", "exploration", runC03) }
 
 // guarded returns a slice of length n placed inside a larger arena according
@@ -57,7 +64,7 @@ func runC03(r *engine.Run) {
 		r.HarnessError("%v", err)
 		return
 	}
-	r.Rule = "E1 products. Function level: EncryptFRMPayload for every payload length 0..255 x direction x key(3) x DevAddr(3) x FCnt(5) x buffer layout(3); EncryptFOpts for lengths 0..15,16,17,255 x aFCntDown x direction x the same alphabets. Method level: EncryptFRMPayload/DecryptFRMPayload/EncryptFOpts/DecryptFOpts on MType{2..5} x FPort{absent,0,1,255} x FOpts forms {none, command list of each length 1..15, opaque 1..15, 16, 20 bytes} x FRMPayload forms {none, opaque 1/16/17/242, port-0 commands} x key/DevAddr/FCnt alphabets. Oracle: S_i = AES(K, A_i) keystream written from the specification (mc/spec/crypto.go); an operation that returns nil must have applied exactly the specified transform. Non-trivial: the operation returned nil and its result was compared with the keystream XOR; distinct by construction."
+	r.Rule = "E1 products. Function level: EncryptFRMPayload for every payload length 0..255 x direction x key(3) x DevAddr(3) x FCnt(5) x buffer layout(3); EncryptFOpts for lengths 0..15,16,17,255 x aFCntDown x direction x the same alphabets. Method level: EncryptFRMPayload/DecryptFRMPayload/EncryptFOpts/DecryptFOpts on MType{2..5} x FPort{absent,0,1,223,224,225,255} x FOpts forms {none, command list of each length 1..15, opaque 1..15, 16, 20 bytes} x FRMPayload forms {none, opaque 1/16/17/242, port-0 commands} x key/DevAddr/FCnt alphabets. Oracle: S_i = AES(K, A_i) keystream written from the specification (mc/spec/crypto.go); an operation that returns nil must have applied exactly the specified transform. Non-trivial: the operation returned nil and its result was compared with the keystream XOR; distinct by construction."
 	cryptoHistory(r)
 	manyKeysHistory(r)
 	r.Assume("AES is crypto/aes (trusted); keys/addresses/counters use 3/3/5-value alphabets plus single-bit walks over every bit of key, DevAddr and FCnt")
@@ -246,11 +253,12 @@ func runC03(r *engine.Run) {
 	})
 	// FRMPayload given as several items (a header part and a body part): the methods transform the
 	// concatenation, preserving its length
-	multi := [][]int{{5, 7}, {16, 1}, {1, 16}, {3, 0, 9}, {20, 20, 2}}
-	r.PartDims("method/multi-item-frmpayload", []string{"mtype:4", fmt.Sprintf("item lengths:%d", len(multi)), "key:3"}, uint64(4*len(multi)*3), func(c *engine.Case) {
+	multi := [][]int{{5, 7}, {16, 1}, {1, 16}, {3, 0, 9}, {20, 20, 2}, {9}}
+	r.PartDims("method/multi-item-frmpayload", []string{"mtype:4", fmt.Sprintf("item lengths:%d", len(multi)), "key:3", "item type{*DataPayload, a caller's own Payload implementation (a struct embedding DataPayload), mixed}"}, uint64(4*len(multi)*3*3), func(c *engine.Case) {
 		mt := lorawan.MType(2 + c.Index%4)
 		lens := multi[(c.Index/4)%uint64(len(multi))]
-		key := c02Keys[c.Index/4/uint64(len(multi))]
+		key := c02Keys[(c.Index/4/uint64(len(multi)))%3]
+		itemKind := int(c.Index / 4 / uint64(len(multi)) / 3)
 		uplink := mt == lorawan.UnconfirmedDataUp || mt == lorawan.ConfirmedDataUp
 		c.Eval()
 		var items []lorawan.Payload
@@ -258,7 +266,13 @@ func runC03(r *engine.Run) {
 		for i, n := range lens {
 			b := fillBytes(n, byte(0x30+i*0x20))
 			plain = append(plain, b...)
-			items = append(items, &lorawan.DataPayload{Bytes: append([]byte(nil), b...)})
+			// FRMPayload is a list of the exported Payload interface: an application's own type is as
+			// good an element as the library's
+			if itemKind == 1 || itemKind == 2 && i%2 == 0 {
+				items = append(items, &callerPayload{lorawan.DataPayload{Bytes: append([]byte(nil), b...)}})
+			} else {
+				items = append(items, &lorawan.DataPayload{Bytes: append([]byte(nil), b...)})
+			}
 		}
 		port := uint8(9)
 		p := lorawan.PHYPayload{MHDR: lorawan.MHDR{MType: mt, Major: lorawan.LoRaWANR1}, MACPayload: &lorawan.MACPayload{
@@ -281,11 +295,11 @@ func runC03(r *engine.Run) {
 		}
 		c.Outcome("multi-item/ok")
 	})
-	spM := (&engine.Space{}).Dim("mtype", 4).Dim("fport", 4).Dim("fopts-form", len(foForms)).Dim("frm-form", len(frmForms)).Dim("key", 3).Dim("devaddr", 3).Dim("fcnt", 5)
+	spM := (&engine.Space{}).Dim("mtype", 4).Dim("fport", len(c03PortAlphabet)).Dim("fopts-form", len(foForms)).Dim("frm-form", len(frmForms)).Dim("key", 3).Dim("devaddr", 3).Dim("fcnt", 5)
 	r.PartDims("method/PHYPayload", spM.Desc(), spM.N(), func(c *engine.Case) {
 		var ch [7]int
 		spM.Decode(c.Index, ch[:])
-		port, fo, fr := c02PortAlphabet[ch[1]], foForms[ch[2]], frmForms[ch[3]]
+		port, fo, fr := c03PortAlphabet[ch[1]], foForms[ch[2]], frmForms[ch[3]]
 		key, da, fc := c02Keys[ch[4]], c02DevAddrs[ch[5]], c02FCnts[ch[6]]
 		f := spec.DataFrame{MType: byte(2 + ch[0]), DevAddr: da, FCnt: fc}
 		uplink := f.Uplink()
